@@ -61,28 +61,6 @@ Proof.
     assert (X2 : (a1 =? a2) = false) by (apply N.eqb_neq; lia). rewrite X1, X2. reflexivity.
 Qed.
 
-(* the keys that carry a given prefix form an interval of the order *)
-Lemma prefix_interval : forall p k1 k2 k3, is_prefix p k1 = true -> is_prefix p k3 = true ->
-  bleb k1 k2 = true -> bleb k2 k3 = true -> is_prefix p k2 = true.
-Proof.
-  induction p as [|c p IH]; intros k1 k2 k3 P1 P3 L12 L23; [reflexivity|].
-  destruct k1 as [|c1 k1]; [discriminate P1|]. destruct k3 as [|c3 k3]; [discriminate P3|].
-  cbn [is_prefix] in P1, P3. apply Bool.andb_true_iff in P1, P3. destruct P1 as [E1 P1], P3 as [E3 P3].
-  apply N.eqb_eq in E1, E3. subst c1 c3.
-  destruct k2 as [|c2 k2].
-  - unfold bleb in L12. simpl in L12. discriminate L12.
-  - unfold bleb in L12, L23. cbn [bcmp] in L12, L23. cbn [is_prefix].
-    destruct (c ?= c2) eqn:C1.
-    + apply N.compare_eq in C1. subst c2. rewrite N.compare_refl in L23. rewrite N.eqb_refl. cbn [andb].
-      apply (IH k1 k2 k3); auto.
-    + rewrite N.compare_lt_iff in C1.
-      assert (C2 : (c2 ?= c) = Gt) by (apply N.compare_gt_iff; lia). rewrite C2 in L23. discriminate L23.
-    + discriminate L12.
-Qed.
-
-Lemma is_prefix_app : forall p x, is_prefix p (p ++ x) = true.
-Proof. induction p as [|c p IH]; intro x; simpl; auto. rewrite N.eqb_refl. simpl. apply IH. Qed.
-
 Lemma last_snoc : forall {A} (l : list A) x d, last (l ++ [x]) d = x.
 Proof. induction l as [|y l IH]; intros; simpl; auto. rewrite IH. destruct (l ++ [x]) eqn:E; auto. destruct l; discriminate E. Qed.
 
